@@ -519,9 +519,25 @@ def check_scan(ctx):
 
 # ------------------------------------------------------------------ lstsq
 
+LSTSQ_X0_KINDS = {  # (A_kind, x0 kind) by r = (i // 6 + i // 24) % 4, for complex and for real A
+    True: [("operator", "none"), ("callable", "float32-zeros"), ("callable", "float64-real"), ("callable", "float32-real"),
+           ("callable", "float64-zeros"), ("callable", "complex-zeros")],
+    False: [("operator", "none"), ("callable", "float64-zeros"), ("operator", "float64-real"), ("callable", "float64-real")],
+}
+
+
 def gen_lstsq_case(rng, i):
+    """real / complex (i % 2) x tall / wide / square ((i // 2) % 3) x how A and the starting point are given
+    ((i // 6 + i // 24) % 4): LinearOperator without x0, or a CALLABLE A with x0 -- for complex A and b also with an
+    x0 of REAL dtype (float32 / float64 zeros, the usual snp.zeros(n), and non-zero real starts): the minimiser is
+    over C^n whatever the dtype of the starting point."""
     cplx = i % 2 == 1
     shape = ["tall", "wide", "square"][(i // 2) % 3]
+    kinds = LSTSQ_X0_KINDS[cplx]
+    r = (i // 6 + i // 24) % 4
+    if cplx and i // 24 >= 1 and r == 3:
+        r = 3 + (i // 24) % 3                      # thorough: also float64-zeros / complex-zeros
+    akind, x0kind = kinds[r % len(kinds)]
     k = rng.randint(1, 4)
     m, n = {"tall": (k + rng.randint(1, 3), k), "wide": (k, k + rng.randint(1, 3)), "square": (k, k)}[shape]
     real_entries = cplx and rng.random() < 0.15
@@ -534,8 +550,15 @@ def gen_lstsq_case(rng, i):
     for j in range(min(m, n)):          # keep the rank full and the conditioning moderate
         A[j, j] += 3.0
     b = gen_vec(rng, m, cplx)
+    x0 = None
+    if x0kind.endswith("-real"):
+        x0 = [dy(rng, 2, -2, 2) for _ in range(n)]
+        if not any(x0):
+            x0[0] = 1.0
+    elif x0kind.endswith("-zeros"):
+        x0 = [0.0] * n
     return {"m": m, "n": n, "complex": cplx, "shape": shape, "A": enc(A), "b": enc(b),
-            "A_kind": rng.choice(["operator", "callable"]), "A_has_imag": bool(np.any(np.asarray(A).imag != 0))}
+            "A_kind": akind, "x0_kind": x0kind, "x0": x0, "A_has_imag": bool(np.any(np.asarray(A).imag != 0))}
 
 
 def lstsq_oracle(c):
@@ -545,24 +568,44 @@ def lstsq_oracle(c):
     cplx = c["complex"]
     A, b = dec(c["A"], cplx), dec(c["b"], cplx)
     Aj = jnp.array(A)
-    if c["A_kind"] == "operator":
-        x = solver.lstsq(MatrixOperator(Aj), jnp.array(b), tol=1e-10, maxiter=500)
+    x0kind = c.get("x0_kind", "none" if c["A_kind"] == "operator" else "complex-zeros")
+    if x0kind == "none":
+        x0 = None
+    elif x0kind == "complex-zeros":
+        x0 = jnp.zeros(c["n"], dtype=A.dtype)
     else:
-        x = solver.lstsq(lambda v: Aj @ v, jnp.array(b), x0=jnp.zeros(c["n"], dtype=A.dtype), tol=1e-10, maxiter=500)
+        x0 = jnp.array(np.array(c["x0"], dtype=np.float32 if x0kind.startswith("float32") else np.float64))
+    Aop = MatrixOperator(Aj) if c["A_kind"] == "operator" else (lambda v: Aj @ v)
+    x = solver.lstsq(Aop, jnp.array(b), x0=x0, tol=1e-10, maxiter=500)
+    xdt = np.dtype(x.dtype)
     x = np.asarray(x)
+    out = []
+    if cplx and c["A_has_imag"] and not np.issubdtype(xdt, np.complexfloating):
+        out.append(("lstsq with complex A and b returns a real-dtype vector (minimisation restricted to R^n by the dtype "
+                    "of x0)", "complex dtype", str(xdt)))
     xr = np.linalg.lstsq(A, b, rcond=None)[0]
     o, orf = float(np.linalg.norm(A @ x - b)), float(np.linalg.norm(A @ xr - b))
-    if not np.all(np.isfinite(x)) or o > orf + 1e-6 * (float(np.linalg.norm(b)) + 1e-3):
-        what = ("lstsq on a complex A is not the minimiser of ||Ax-b|| (normal equations formed without the conjugate "
-                "transpose?)" if c["A_has_imag"] else "lstsq result is not the minimiser of ||Ax-b||")
-        return [(what, f"||Ax-b|| = {orf} (numpy.linalg.lstsq)", f"||Ax-b|| = {o}")]
-    return []
+    nA, nb = float(np.linalg.norm(A)), float(np.linalg.norm(b))
+    # normal equations with the conjugate transpose (theorem C14_lstsq_matrix_real_and_complex)
+    ne = float(np.linalg.norm(A.conj().T @ (A @ x - b))) if np.all(np.isfinite(x)) else float("inf")
+    if not np.all(np.isfinite(x)) or o > orf + 1e-6 * (nb + 1e-3) or ne > 1e-7 * (nA * nA * float(np.linalg.norm(x)) + nA * nb + 1e-3):
+        if cplx and c["A_has_imag"] and x0kind.startswith("float"):
+            what = ("lstsq with a callable complex A and a real-dtype x0 is not the minimiser of ||Ax-b|| over C^n")
+        elif c["A_has_imag"]:
+            what = ("lstsq on a complex A is not the minimiser of ||Ax-b|| (normal equations formed without the conjugate "
+                    "transpose?)")
+        else:
+            what = "lstsq result is not the minimiser of ||Ax-b||"
+        out.append((what, f"||Ax-b|| = {orf} (numpy.linalg.lstsq), A^H(Ax-b) = 0",
+                    f"||Ax-b|| = {o}, ||A^H(Ax-b)|| = {ne}"))
+    return out
 
 
 def check_lstsq(ctx):
     for i in range(ctx.n(24, 72)):
         c = gen_lstsq_case(ctx.rng, i)
-        ctx.count("lstsq/" + ("complex" if c["complex"] else "real") + "/" + c["shape"] + "/" + c["A_kind"], c,
+        ctx.count("lstsq/" + ("complex" if c["complex"] else "real") + "/" + c["shape"] + "/" + c["A_kind"]
+                  + "/x0=" + c["x0_kind"], c,
                   nontrivial=c["m"] * c["n"] >= 2)
         for what, exp, ob in lstsq_oracle(c):
             ctx.violation("lstsq", what, c, expected=exp, observed=ob,
